@@ -46,6 +46,23 @@ def confirm(mutdir):
     # e2e module, if any
     return 0
 
+def demogo(mutdir, testfile, pkgdir):
+    """worktree must be in the patched state left by confirm: run the Go demo with, then without, the patch"""
+    import re
+    src = os.path.join(mutdir, testfile)
+    names = re.findall(r"^func (Test\w+)\(", open(src).read(), re.M)
+    dst = os.path.join(WT, pkgdir, "zz_" + testfile)
+    shutil.copy(src, dst)
+    pat = "^(" + "|".join(names) + ")$"
+    rc1, out1 = sh(f"go test -vet=off -count=1 -run '{pat}' ./{pkgdir}/", cwd=WT)
+    print("with patch: rc", rc1, out1.strip().splitlines()[-1][:200] if out1.strip() else "")
+    rc, out = sh(f"git apply -R {patch_of(mutdir)}", cwd=WT)
+    assert rc == 0, out
+    rc2, out2 = sh(f"go test -vet=off -count=1 -run '{pat}' ./{pkgdir}/", cwd=WT)
+    print("without patch: rc", rc2, out2.strip().splitlines()[-1][:200] if out2.strip() else "")
+    os.remove(dst)
+    print("DEMO", "CONFIRMED" if rc1 != 0 and rc2 == 0 else "NOT CONFIRMED")
+
 def done():
     sh(f"git -C /repo worktree remove --force {WT}")
     shutil.rmtree(BIN, ignore_errors=True)
@@ -89,6 +106,7 @@ if __name__ == "__main__":
     a = sys.argv[1:]
     if a[0] == "confirm": sys.exit(confirm(a[1]))
     elif a[0] == "done": done()
+    elif a[0] == "demogo": demogo(a[1], a[2], a[3])
     elif a[0] == "check":
         tier = None
         if "--tier" in a:
